@@ -210,7 +210,7 @@ func main() {
 		"groups), requests by members and strangers for 0-3 groups and 5 destinations, plus public " +
 		"inserts / expiry clean-ups / public look-ups on the same DB; non-trivial = decision " +
 		"reached a group check; distinct by op line within history"
-	nHist := e.N(200, 2500)
+	nHist := e.N(200, 1500)
 	if os.Getenv("VERIF_HIDDEN_HIST") != "" {
 		fmt.Sscan(os.Getenv("VERIF_HIDDEN_HIST"), &nHist)
 	}
